@@ -11,8 +11,8 @@ from vf.symx import SymInt, sym_and, sym_or, sym_implies, sym_not
 
 F_DG = ["rich/color.py:Color.downgrade", "rich/color_triplet.py:ColorTriplet.normalized", "colorsys.rgb_to_hls (stdlib, executed)"]
 F_MATCH = ["rich/color.py:Color.downgrade", "rich/palette.py:Palette.match", "rich/_palettes.py"]
-_downgrade = Color.downgrade.__wrapped__
-_match = palette_mod.Palette.match.__wrapped__
+_downgrade = getattr(Color.downgrade, '__wrapped__', Color.downgrade)
+_match = getattr(palette_mod.Palette.match, '__wrapped__', palette_mod.Palette.match)
 
 
 class _sqrt_stub:
@@ -21,7 +21,8 @@ class _sqrt_stub:
     def __enter__(self):
         self.saved = palette_mod.sqrt
         palette_mod.sqrt = lambda x: x
-        Color.downgrade.cache_clear()
+        if hasattr(Color.downgrade, 'cache_clear'):
+            Color.downgrade.cache_clear()
 
     def __exit__(self, *a):
         palette_mod.sqrt = self.saved
@@ -264,3 +265,31 @@ def c18_f_256(n: int, fg: bool) -> bool:
     d = Color("d", ColorType.DEFAULT)
     return (_codes(c, fg) == (("38" if fg else "48"), "5", str(n))
             and _codes(d, fg) == (("39" if fg else "49"),))
+
+
+# --- history independence: converting one colour to several systems in either order (S) ---------------------------------
+@symx("C18-b-cross-system-order", timeout=900, kind="S", functions=F_MATCH, opts={"bv": 32, "query_timeout_ms": 600000},
+      bounds="all 2^24 (r,g,b): the same colour converted to standard then windows, and (on fresh objects with the same "
+             "components) to windows then standard, within one execution: each result is minimal for ITS palette whatever was "
+             "converted before (caches must not leak between palettes or calls)",
+      stubs=["L2 sqrt stub", "S3", "downgrade is called through the real (possibly caching) attribute, not __wrapped__"])
+def c18_cross(e):
+    from vf.symx import smin
+    r, g, b = e.mk("r", 0, 255), e.mk("g", 0, 255), e.mk("b", 0, 255)
+    ok = True
+    with _sqrt_keys():
+        for order in ((ColorSystem.STANDARD, ColorSystem.WINDOWS), (ColorSystem.WINDOWS, ColorSystem.STANDARD)):
+            c = Color("c", ColorType.TRUECOLOR, None, ColorTriplet(r, g, b))
+            for system in order:
+                out = Color.downgrade(c, system)
+                pal = STANDARD_PALETTE if system == ColorSystem.STANDARD else WINDOWS_PALETTE
+                mine = [_dist(r, g, b, pal._colors[j]) for j in range(16)]
+                # first-minimal index of the documented metric, built the same way the code builds it (equal terms on the
+                # unchanged tree); if the code picks another index it must still be a minimal one (property level)
+                ref = smin(range(16), key=lambda j: mine[j])
+                dn = _select(e, out.number, mine)
+                direct = True
+                for j in range(16):
+                    direct = sym_and(direct, dn <= mine[j])
+                ok = sym_and(ok, sym_or(out.number == ref, direct), out.number >= 0, out.number < 16)
+    return ok
